@@ -764,6 +764,14 @@ func c15Aliases(c *wk.Case) {
 		type pair struct{ alias, ascii string }
 		forms := []pair{{"•", "*"}, {"×", "*"}, {"÷", "/"}, {"–", "-"}, {"ˆ", "^"}}
 		var alias, ascii strings.Builder
+		// separators around the operator: the alias spelling with any white space or comment around it must
+		// give the AST of the ASCII spelling set off by blanks
+		gen := c15gens.plain
+		seps := []string{"", " ", "", " ", "\t", "\n", "\r\n", " \n "}
+		if c.Index%4 == 0 {
+			gen = c15gens.comments
+			seps = append(seps, "/*c*/", " /*c*/ ", "//c\n", "/* * / */", "/**/", "/*\n*/")
+		}
 		n := 1 + r.IntN(4)
 		x := at()
 		alias.WriteString(x)
@@ -777,13 +785,12 @@ func c15Aliases(c *wk.Case) {
 			}
 			f := forms[r.IntN(len(forms))]
 			y := at()
-			sp := []string{"", " "}[r.IntN(2)]
-			alias.WriteString(sp + f.alias + sp + y)
-			ascii.WriteString(sp + f.ascii + sp + y)
+			alias.WriteString(seps[r.IntN(len(seps))] + f.alias + seps[r.IntN(len(seps))] + y)
+			ascii.WriteString(" " + f.ascii + " " + y)
 		}
 		args := []string{"a", "b", "f1"}
-		w, _, e1, p1 := valueAST(c15gens.plain, ascii.String(), args)
-		g, _, e2, p2 := valueAST(c15gens.plain, alias.String(), args)
+		w, _, e1, p1 := valueAST(gen, ascii.String(), args)
+		g, _, e2, p2 := valueAST(gen, alias.String(), args)
 		if p1 != nil || p2 != nil || (e1 == nil) != (e2 == nil) || w != g {
 			c.Violation("alias-differs-from-ascii", fmt.Sprintf("%q: %v %v %s ; %q: %v %v %s", alias.String(), e2, p2, g, ascii.String(), e1, p1, w), map[string]any{"alias": alias.String(), "ascii": ascii.String()})
 			return
@@ -810,15 +817,23 @@ func c15Aliases(c *wk.Case) {
 			tight = false // a(b) is a call: the property excepts the blank before '('
 		}
 	}
+	g := c15gens.comfort
 	sep := " "
 	if tight {
 		sep = ""
+	} else {
+		// every kind of white space stands for the omitted sign, not only the blank
+		ws := []string{" ", " ", "\t", "\n", "\r\n", "\n\n", " \n", "\n ", "\t \t", "\r"}
+		if c.Index%4 == 1 {
+			g = c15gens.comfortC
+			ws = append(ws, "//c\n", " /*c*/", "/*c*/ ", " /*c*/ ", "\n/*c*/\n", "/*\n*/ ")
+		}
+		sep = ws[r.IntN(len(ws))]
 	}
 	pre := []string{"", "1+", "b/"}[r.IntN(3)]
 	post := []string{"", "+1", "^2"}[r.IntN(3)]
 	imp := pre + l + sep + rr + post
 	exp := pre + l + "*" + rr + post
-	g := c15gens.comfort
 	w, e1, p1 := floatAST(g, exp, []string{"a", "b"})
 	got, e2, p2 := floatAST(g, imp, []string{"a", "b"})
 	if p1 != nil || p2 != nil || (e1 == nil) != (e2 == nil) || w != got {
